@@ -70,4 +70,17 @@ impl<'a> CDataIterator<'a> {
     }
 //@end
 }
+impl<'a> BytesCData<'a> {
+//@extract events::BytesCData::escaped | src/events/mod.rs :: impl<'a> BytesCData<'a> :: fn escaped | serves=C09
+ pub fn escaped(content: &'a str) -> (r: CDataIterator<'a>)
+        // C09: the splitting constructor starts with ALL the bytes of the content, nothing processed yet
+        ensures r.unprocessed@ == content.spec_bytes(), !r.finished
+ {
+        CDataIterator {
+            unprocessed: content.as_bytes(),
+            finished: false,
+        }
+    }
+//@end
+}
 }
